@@ -9,7 +9,7 @@
        (shapes, lb < ub strictly, lb <= x0 <= ub) as explicit error values,
      * the optimiser itself (`lsq`), the Euclidean norm used by `transform` (`hyp`) and the image
        deviation over the fit region (`dev`) as Section variables (oracles). *)
-From Coq Require Import QArith Qabs Qround ZArith List Bool Arith.
+From Coq Require Import String QArith Qabs Qround ZArith List Bool Arith.
 Import ListNotations.
 From PD Require Import Model.Grid Gen.Gen_refine.
 Local Open Scope Q_scope.
@@ -106,7 +106,8 @@ Record prepared := {
   p_width : Q;                 (* interface width after the default *)
   p_flat : list Q;             (* data_flat *)
   p_free : list bool;
-  p_vmin : Q; p_vmax : Q; p_vrng : Q;
+  p_scale : Q;                 (* the unit of the intensities below (1 for a source that does not normalise) *)
+  p_vmin : Q; p_vmax : Q; p_vrng : Q;   (* in units of p_scale *)
   p_x0 : list Q; p_lo : list ext; p_hi : list ext
 }.
 
@@ -121,13 +122,15 @@ Definition prepare (g : rgrid) (st : stats) (vmin_o vmax_o : option Q) (adjust :
   let free := free_mask num (constraints g) in
   let '(l, h) := data_bounds (d_cls p) dim (length (d_amp p)) num in
   let '(b0, b1) := fit_bounds free l h in
-  let '(vmin, vmax) := levels vmin_o vmax_o st in
-  let vrng := vrng_of vmin vmax in
+  let '(vmin0, vmax0) := levels vmin_o vmax_o st in
+  let vrng0 := vrng_of vmin0 vmax0 in
+  let scale := level_scale vrng0 in
+  let '(vmin, vmax, vrng) := normalised_levels vmin0 vmax0 vrng0 scale in
   let '(x0, (lo, hi)) :=
     if adjust then (start_adjust free data_flat vmin vmax vrng, bounds_adjust b0 b1 vmin vmax vrng)
     else (start_plain free data_flat, (b0, b1)) in
   inr {| p_drop := p; p_dim := dim; p_width := w; p_flat := data_flat; p_free := free;
-         p_vmin := vmin; p_vmax := vmax; p_vrng := vrng; p_x0 := x0; p_lo := lo; p_hi := hi |}.
+         p_scale := scale; p_vmin := vmin; p_vmax := vmax; p_vrng := vrng; p_x0 := x0; p_lo := lo; p_hi := hi |}.
 
 (* the checks of scipy.optimize.least_squares before it starts, in its order *)
 Definition lsq_precondition (x0 : list Q) (lo hi : list ext) : option rerr :=
@@ -137,6 +140,43 @@ Definition lsq_precondition (x0 : list Q) (lo hi : list ext) : option rerr :=
   else None.
 
 Definition sumsq_cost (v : list Q) : Q := sumsq v.
+
+(* ---------------------------------------------------------------------------------------- *)
+(* the options handed to the optimiser (`tolerance`, `least_squares_params`)                 *)
+(* ---------------------------------------------------------------------------------------- *)
+(* values of option dicts: numbers (ftol, max_nfev, ...) or strings (method, x_scale="jac", ...) *)
+Inductive optval := OQ (q : Q) | OS (s : string).
+(* a Python dict with string keys, in insertion order *)
+Definition options := list (string * optval).
+
+Fixpoint opt_lookup (k : string) (d : options) : option optval :=
+  match d with
+  | [] => None
+  | (k', v) :: d' => if String.eqb k k' then Some v else opt_lookup k d'
+  end.
+
+(* d.setdefault(k, v) *)
+Definition setdefault (k : string) (v : optval) (d : options) : options :=
+  match opt_lookup k d with Some _ => d | None => d ++ [(k, v)] end.
+
+(* if tolerance is not None: for key in tolerance_keys: d.setdefault(key, tolerance)   (keys: generated) *)
+Definition with_tolerance (tolerance : option Q) (d : options) : options :=
+  match tolerance with
+  | None => d
+  | Some t => fold_left (fun d k => setdefault k (OQ t) d) tolerance_keys d
+  end.
+
+(* the keyword arguments that reach least_squares besides `bounds` *)
+Definition lsq_options (tolerance : option Q) (params : option options) : options :=
+  with_tolerance tolerance (match params with None => [] | Some p => p end).
+
+(* the caller's own dict after the call: untouched when refine_droplet works on a copy (generated flag), otherwise the
+   very object that received the setdefault calls *)
+Definition caller_params_after (tolerance : option Q) (params : option options) : option options :=
+  match params with
+  | None => None
+  | Some p => Some (if params_copied then p else with_tolerance tolerance p)
+  end.
 
 Section Refine.
   (* scipy.optimize.least_squares(fun, x0, bounds=(lo, hi)).x *)
@@ -217,6 +257,17 @@ Section Refine.
     end.
 End Refine.
 
+(* the caller's candidate OBJECT after the call (the model has no heap: this is its only notion of identity).  A candidate
+   without interface is always rebuilt by from_droplet; a DiffuseDroplet(-derived) candidate is copied first when the
+   generated flag `candidate_copied` holds, otherwise it is the object that the fit overwrites and returns *)
+Definition caller_candidate_after (c : droplet) (result : rres) : droplet :=
+  if is_diffuse (d_cls c) && negb candidate_copied
+  then match result with ROk r => r | RErr _ => c end
+  else c.
+
+(* ... and whether the returned droplet is that very object *)
+Definition result_is_candidate (c : droplet) : bool := is_diffuse (d_cls c) && negb candidate_copied.
+
 (* ---------------------------------------------------------------------------------------- *)
 (* correspondence glue (evaluated by vm_compute on recorded runs of the implementation)      *)
 (* ---------------------------------------------------------------------------------------- *)
@@ -267,8 +318,36 @@ Definition droplet_agree (cs : list nat) (m r : droplet) : bool :=
   rclass_eqb (d_cls m) (d_cls r) && pos_agree cs 0 (d_pos m) (d_pos r) && Qeq_bool (d_rad m) (d_rad r)
   && opt_agree (d_width m) (d_width r) && agree_vec Qeq_bool Qeq_bool (fun _ => true) 0 (d_amp m) (d_amp r).
 
+Definition optval_eqb (a b : optval) : bool :=
+  match a, b with OQ x, OQ y => Qeq_bool x y | OS x, OS y => String.eqb x y | _, _ => false end.
+
+Definition opt_lookup_agree (a b : options) (k : string) : bool :=
+  match opt_lookup k a, opt_lookup k b with
+  | Some x, Some y => optval_eqb x y
+  | None, None => true
+  | _, _ => false
+  end.
+
+(* equal as dicts (the order of the entries is not compared) *)
+Definition options_agree (a b : options) : bool :=
+  Nat.eqb (length a) (length b) && forallb (opt_lookup_agree a b) (map fst a ++ map fst b).
+
+Definition opt_options_agree (a b : option options) : bool :=
+  match a, b with Some x, Some y => options_agree x y | None, None => true | _, _ => false end.
+
+(* bit-identical records *)
+Definition droplet_same (a b : droplet) : bool :=
+  rclass_eqb (d_cls a) (d_cls b) && agree_vec Qeq_bool Qeq_bool (fun _ => true) 0 (d_pos a) (d_pos b)
+  && Qeq_bool (d_rad a) (d_rad b) && opt_agree (d_width a) (d_width b)
+  && agree_vec Qeq_bool Qeq_bool (fun _ => true) 0 (d_amp a) (d_amp b).
+
 Record rcase := {
   rc_grid : rgrid; rc_cand : droplet; rc_vmin : option Q; rc_vmax : option Q; rc_adjust : bool;
+  rc_tol : option Q; rc_params : option options;   (* arguments `tolerance`, `least_squares_params` *)
+  rc_kwargs : options;              (* recorded keyword arguments of least_squares besides `bounds` ([] when not reached) *)
+  rc_params_after : option options; (* the caller's dict inspected after the call *)
+  rc_cand_after : droplet;          (* the caller's candidate object inspected after the call *)
+  rc_same_object : bool;            (* the returned object is the candidate object *)
   rc_stats : stats;                 (* min / max of the image over the fit region, recomputed by the harness *)
   rc_x : list Q;                    (* the recorded answer of the optimiser *)
   rc_hyp : Q;                       (* the recorded norm of the constrained coordinates *)
@@ -305,4 +384,18 @@ Definition agree (c : rcase) : bool :=
         && (Z.eqb (rc_iter c) (-1) || Z.eqb (rc_iter c) (dilation_passed (dilation_iterations (p_width p))))
     | inl _ => negb (rc_called c)
     end in
-  out_ok && args_ok.
+  let options_ok :=
+    (if rc_called c then options_agree (lsq_options (rc_tol c) (rc_params c)) (rc_kwargs c) else true)
+    && opt_options_agree (caller_params_after (rc_tol c) (rc_params c)) (rc_params_after c) in
+  let identity_ok :=
+    match rc_out c with
+    | ROk _ =>
+        (* the position of an object fitted in place has been normalised like the result's: compare with the tolerance of
+           positions; a copied / rebuilt candidate must be the candidate bit by bit *)
+        (if result_is_candidate (rc_cand c)
+         then droplet_agree (constraints (rc_grid c)) (caller_candidate_after (rc_cand c) model) (rc_cand_after c)
+         else droplet_same (rc_cand c) (rc_cand_after c))
+        && Bool.eqb (result_is_candidate (rc_cand c)) (rc_same_object c)
+    | RErr _ => true                (* after an exception the object may be half-way (in-place code); the oracle judges it *)
+    end in
+  out_ok && args_ok && options_ok && identity_ok.
